@@ -9,8 +9,8 @@ import (
 var (
 	prinPool = []string{"alice", "bob", "root", "Alice", "ALICE", "host.example.com", "Host.Example.COM", "10.0.0.1", "alice@example.com", "ü", "a b", "-x"}
 	subPool  = []string{"alice", "alice@example.com", "host.example.com", "svc-1", "Bob"}
-	typePool = []string{"", "", "user", "host", "host", "User", "HOST", "server", " user"}
-	reqTypes = []string{"", "", "", "user", "host", "User", "HOST", "server"}
+	typePool = []string{"", "", "", "user", "user", "host", "host", "host", "host", "User", "HOST", "user", "host", "", "server", " user"}
+	reqTypes = []string{"", "", "", "user", "user", "host", "host", "User", "HOST", "server"}
 	keyPool  = []string{"ed", "ed", "ec", "ec", "rsa2048", "ed", "ec", "rsa1024", "dsa"}
 )
 
@@ -51,10 +51,13 @@ func genPrincipals(r *c.Rng, max int) []string {
 
 func genSign(r *c.Rng) *Case {
 	k := &Case{Op: "sign"}
-	k.CA = c.Pick(r, []string{"both", "both", "both", "both", "bothnodb", "bothnodb", "none", "user", "host"})
+	k.CA = c.Pick(r, []string{"both", "both", "both", "both", "both", "bothnodb", "bothnodb", "bothnodb", "bothnodb", "none", "user", "user", "host", "host"})
 	k.Prov = c.Pick(r, []string{"jwk", "jwk", "jwk", "x5c", "x5c", "oidc"})
 	k.Sub = c.Pick(r, subPool)
 	k.Key = c.Pick(r, keyPool)
+	if r.Chance(2, 3) {
+		k.Key = c.Pick(r, keyPool[:7])
+	}
 	if k.Prov == "oidc" {
 		k.Sub = c.Pick(r, []string{"1234567890", "sub two"})
 		if r.Chance(7, 8) {
@@ -73,7 +76,9 @@ func genSign(r *c.Rng) *Case {
 	}
 	// request options: mutation of the token's
 	k.Req.CertType = k.Tok.CertType
-	if !r.Chance(2, 3) {
+	if r.Chance(1, 2) {
+		k.Req.CertType = ""
+	} else if r.Chance(1, 2) {
 		k.Req.CertType = c.Pick(r, reqTypes)
 	}
 	if k.Req.CertType != "" && k.Req.CertType != "user" && k.Req.CertType != "host" && r.Chance(3, 4) {
@@ -93,8 +98,8 @@ func genSign(r *c.Rng) *Case {
 	if k.Prov == "oidc" && k.Email != "" {
 		base = []string{strings.ToLower(strings.Split(k.Email, "@")[0]), k.Email}
 	}
-	switch r.Intn(14) {
-	case 0, 1, 2: // identical
+	switch r.Intn(17) {
+	case 0, 1, 2, 14, 15, 16: // identical
 	case 3: // omitted
 		base = nil
 	case 4: // permutation
@@ -141,7 +146,7 @@ func genPop(r *c.Rng) *Case {
 	k.SignBy, k.Window, k.TokKey, k.Aud, k.Iss, k.Key = "host", "ok", "cert", "ok", "ok", "ed"
 	k.SubSer = k.Op == "revoke"
 	// usually exactly one deviation from the valid request
-	for i := c.Pick(r, []int{0, 1, 1, 1, 1, 2, 2, 3}); i > 0; i-- {
+	for i := c.Pick(r, []int{0, 0, 0, 1, 1, 1, 1, 2, 3}); i > 0; i-- {
 		switch r.Intn(13) {
 		case 0:
 			k.Cert.CertType = "user"
